@@ -12,7 +12,7 @@ Statement forms (tuples):
   ("cancel", fiber, msg) ("read", p, n) ("readt", p, n, ms) ("write", p, nbytes, ch) ("writet", p, nbytes, ch, ms)
   ("chunk", p, n) ("closew", p) ("closer", p) ("pwait", k) ("exitproc", k) ("deadline", ms, stmt)
   ("spawn", name, [stmts]) ("dump", tag) ("count", c) ("settle", n)
-  ("block", kind, [stmts])   kind = "try" | "defer" | "coro": the statements run inside ONE child fiber of the task that stays
+  ("block", kind, [stmts])   kind = "try" | "defer" | "coro" | "dl:<ms>" (ev/with-deadline around the statements): the statements run inside ONE child fiber of the task that stays
                              suspended across their waits (every single wait is additionally wrapped in its own `try`)
   ("goself",)                (ev/go (fiber/root)): the running task schedules itself;  ("cancel", <own name>, msg) likewise
 Every waiting statement is logged:  L <tick> <fiber> :<label> <result or (:err msg)>.
@@ -111,6 +111,9 @@ class Scenario:
                     out.append("%s(defer nil\n%s)" % (ind, "\n".join(inner)))
                 elif st[1] == "coro":
                     out.append("%s(resume (coro\n%s))" % (ind, "\n".join(inner)))
+                elif st[1].startswith("dl:"):
+                    # ev/with-deadline around SEVERAL waits (each wait still has its own try, so the body goes on after a deadline)
+                    out.append("%s(ev/with-deadline %s\n%s)" % (ind, ms(st[1][3:]), "\n".join(inner)))
                 else:
                     raise ValueError(st)
                 continue
@@ -235,7 +238,7 @@ class Scenario:
                 elif k == "finish":
                     toks.append("finish %s" % st[1])
                 elif k == "block":
-                    toks.append("enter")
+                    toks.append("enterdl %d" % ms1000(st[1][3:]) if st[1].startswith("dl:") else "enter")
                     sub = []
                     enc_into(st[2], name, sub)
                     toks.extend(sub)
@@ -818,6 +821,38 @@ def deadline_scenarios():
               ("sleep", 10), ("cancel", "F", "stop"), ("sleep", 50)]
     s.expect = {"resumes": {"F": [(0, "nil"), (10, '"stop"'), (40, "nil"), (40, "nil")], "Z": [(0, "nil"), (15, "nil")]}}
     out.append(s)
+    # D8: with-deadline BLOCKS, nested; the inner one expires first, the outer body goes on and finishes in time
+    s = Scenario("d8-nested-blocks-inner-first")
+    s.chan("cF"); s.chan("cB")
+    s.main = [("spawn", "F", [("block", "dl:30", [("block", "dl:10", [("take", "cF")]), ("take", "cB")]), ("sleep", 0), ("sleep", 25)]),
+              ("sleep", 15), ("dump", "mid"), ("sleep", 5), ("give", "cB", "vb"), ("sleep", 40), ("dump", "final")]
+    s.expect = {"resumes": {"F": [(0, "nil"), (10, '"deadline_expired"'), (20, ":vb"), (20, "nil"), (45, "nil")]}}
+    out.append(s)
+    # D9: the OUTER block expires first: the error reaches the innermost wait, whose try catches it; the inner deadline still guards
+    #     the inner body and expires later; nothing else is touched
+    s = Scenario("d9-nested-blocks-outer-first")
+    s.chan("cF"); s.chan("cG"); s.chan("cH")
+    s.main = [("spawn", "G", [("take", "cH")]),
+              ("spawn", "F", [("block", "dl:10", [("block", "dl:30", [("take", "cF"), ("take", "cG")])]), ("sleep", 0)]),
+              ("sleep", 20), ("dump", "mid"), ("sleep", 30), ("give", "cH", "vh"), ("sleep", 10), ("dump", "final")]
+    s.expect = {"resumes": {"F": [(0, "nil"), (10, '"deadline_expired"'), (30, '"deadline_expired"'), (30, "nil")],
+                            "G": [(0, "nil"), (50, ":vh")]}}
+    out.append(s)
+    # D10: the inner body finishes early; its deadline later finds the task in other waits of the outer body: no effect
+    s = Scenario("d10-finished-inner-block")
+    s.chan("cF", 1); s.chan("cB")
+    s.main = [("give", "cF", "v0"),
+              ("spawn", "F", [("block", "dl:40", [("block", "dl:10", [("take", "cF")]), ("sleep", 15), ("take", "cB")]), ("sleep", 0), ("sleep", 30)]),
+              ("sleep", 12), ("dump", "mid"), ("sleep", 18), ("give", "cB", "vb"), ("sleep", 50), ("dump", "final")]
+    s.expect = {"resumes": {"F": [(0, "nil"), (0, ":v0"), (15, "nil"), (30, ":vb"), (30, "nil"), (60, "nil")]}}
+    out.append(s)
+    # D11: the task is cancelled inside two nested blocks; both deadlines expire while the (surviving) bodies wait elsewhere
+    s = Scenario("d11-cancel-inside-nested-blocks")
+    s.chan("cF"); s.chan("cB")
+    s.main = [("spawn", "F", [("block", "dl:30", [("block", "dl:20", [("take", "cF"), ("sleep", 5)]), ("take", "cB")]), ("sleep", 0)]),
+              ("sleep", 5), ("cancel", "F", "stop"), ("sleep", 40), ("dump", "final")]
+    s.expect = {"resumes": {"F": [(0, "nil"), (5, '"stop"'), (10, "nil"), (30, '"deadline_expired"'), (30, "nil")]}}
+    out.append(s)
     # D5: two fibers with deadlines on the same channel; the earlier deadline cancels only its own fiber
     s = Scenario("d5-two-deadlines")
     s.chan("c")
@@ -835,7 +870,7 @@ def deadline_scenarios():
 # =====================================================================================================
 
 def corpus_scenarios():
-    out = []
+    out = net_scenarios()
     for how in ("cancel", "go"):
         for a in ("take", "give", "seltake", "sleep", "pwait", "read"):
             for b in ("take", "sleep"):
@@ -877,4 +912,36 @@ def corpus_scenarios():
                             "what": "F scheduled itself (ev/%s on the running task), which aborts its next wait A=%s; the registration of "
                                     "that aborted wait must be stale, yet later activity on A reached F in its next wait B=%s" % (how, a, b)}
                 out.append(s)
+    return out
+
+
+def net_scenarios():
+    """net/accept with a timeout (janet_addtimeout + listener on the server socket), abandoned by its timeout / by ev/cancel; a client
+    connects afterwards while F is blocked elsewhere.  The connection must stay in the backlog for the NEXT accept, F must not be
+    resumed.  Oracle only (real sockets; the connect completes through the kernel, so only the VALUES of the resumes are compared)."""
+    out = []
+    for ab in ("timeout", "cancel"):
+        for b in ("take", "sleep"):
+            s = Scenario("n-accept-%s-%s" % (ab, b))
+            s.meta = {"A": "accept", "B": b, "abandon": ab, "fire": "connect", "dirt": "none", "nest": "none"}
+            s.chan("cB", 0)
+            s.setup = ['(def pSv (verif/name (net/listen "127.0.0.1" "0") "pSv"))', "(def port (string ((net/localname pSv) 1)))"]
+            A = ("raw", "(net/accept pSv 0.01)" if ab == "timeout" else "(net/accept pSv)")
+            B = ("take", "cB") if b == "take" else ("sleep", 40)
+            M = [("spawn", "F", [A, B, ("sleep", 0)]), ("sleep", 5)]
+            if ab == "cancel":
+                M.append(("cancel", "F", "stop"))
+            M += [("sleep", 15), ("dump", "prefire"),
+                  ("raw", '(do (def cli (net/connect "127.0.0.1" port)) :connected)'), ("sleep", 10), ("dump", "postfire")]
+            if b == "take":
+                M.append(("give", "cB", "vb"))
+            M += [("sleep", 40), ("raw", "(type (net/accept pSv 0.05))"), ("dump", "final")]
+            s.main = M
+            s.expect = {"resumes": {"F": [(0, "nil"), (10, '"timeout"' if ab == "timeout" else '"stop"'),
+                                          (40, ":vb" if b == "take" else "nil"), (40, "nil")]},
+                        "no_ticks": True,
+                        "m_final": [("m%d" % (len(M) - 2), ":core/stream")],
+                        "sig": "abandoned-accept-consumed-connection",
+                        "what": "net/accept with timeout was abandoned (%s); a client connected while F was blocked on B=%s" % (ab, b)}
+            out.append(s)
     return out
